@@ -72,6 +72,11 @@ func (w *world) now() *snapshot {
 	return w.cur
 }
 
+// undeclared: a transaction that names a public key without a `key` line is not executed; it is answered like a
+// rejected transaction (which is what the model, knowing no such key, answers for every op that names one). Only
+// shrunk replays contain such lines.
+func (w *world) undeclared() string { return "err " + digest(w.now().text()) }
+
 // One in-memory LevelDB and overlay serve all cases: nothing is ever flushed to the LevelDB (the harness never calls
 // CommitTo), so resetting the overlay's write set gives a fresh, empty state.
 var sharedOverlay *overlaydb.OverlayDB
@@ -196,9 +201,14 @@ func (w *world) invoke(signers []common.Address, contract common.Address, method
 
 // direct runs a function that is not a registered method (CheckVotes) as one transaction.
 func (w *world) direct(signers []common.Address, f func(svc *native.NativeService) (bool, error)) callResult {
+	return w.directIn(signers, nil, f)
+}
+
+// directIn: like direct, with the transaction input the function reads through GetInput.
+func (w *world) directIn(signers []common.Address, input []byte, f func(svc *native.NativeService) (bool, error)) callResult {
 	cache := storage.NewCacheDB(w.overlay)
 	tx := &types.Transaction{SignedAddr: signers}
-	svc, err := native.NewNativeService(cache, tx, 0, w.height, common.Uint256{}, 0, nil, false)
+	svc, err := native.NewNativeService(cache, tx, 0, w.height, common.Uint256{}, 0, input, false)
 	if err != nil {
 		panic(err)
 	}
